@@ -238,12 +238,15 @@ pub fn mutate(old: u32, salt: u32) -> u32 {
 
 impl<'a, C: vcommon::Comp> Observe for &'a C {
     fn observe(self, _salt: Option<u32>) -> Option<(Obs, Obs)> {
+        // every view handed to user code counts as a tick of the "system body" callback (C17)
+        vcommon::ledger::tick(vcommon::ledger::Callback::Body);
         let o = self.obs();
         Some((o, o))
     }
 }
 impl<'a, C: vcommon::Comp> Observe for &'a mut C {
     fn observe(self, salt: Option<u32>) -> Option<(Obs, Obs)> {
+        vcommon::ledger::tick(vcommon::ledger::Callback::Body);
         let before = self.obs();
         if let Some(s) = salt {
             self.set(mutate(before.payload, s));
